@@ -299,6 +299,21 @@ theorem layer_per_connection : layerPerConnection = true := rfl
     well-formed block (`TestC04UdpDial` runs a real `udp.Dial` client against such datagrams). -/
 theorem datagram_read_buffer_is_mtu : datagramReadBufferIsMTU = true := rfl
 
+/-- **deadlines_are_finite** — what `expiry_finite` rests on: `Entry.validUntil` is an `Int`, the model has no "never".  In
+    the code the cache treats the zero time as "never expires"; that no entry ever gets it is read from the source: every
+    deadline handed to `cache.NewElement` is the context's deadline or `time.Now().Add(b.expiration)` — also for an
+    expiration of 0 (`deadlinesAreNowPlusExpiration`; any other shape fails the extractor).  The judge's `leak` clause checks
+    the consequence on every history: long after every deadline, both sides swept, no cache entry is held. -/
+theorem deadlines_are_finite : deadlinesAreNowPlusExpiration = true := rfl
+
+/-- **caches_own_their_messages** — what "an entry's message is the reassembly buffer of its token, and only of it" rests
+    on: the model's entries hold values; in the code they hold pooled messages, and a message handed back to the pool while
+    an entry (or a running `Handle` call) still refers to it is given out again as the buffer of another token.  No
+    `onExpire` callback and no path of `getCachedReceivedMessage` releases a message, and the close list is extended by
+    `appendToClose` (guards) only (`cachesOwnTheirMessages`, fail-closed); `TestC04Pool` runs the two places where goroutines
+    meet — the same first block twice at the same moment, the sweep during an append — over a tracking LIFO pool. -/
+theorem caches_own_their_messages : cachesOwnTheirMessages = true := rfl
+
 /-- **system_safe.** A (client) and B (server) joined by the relay.  For every script of relay decisions — deliver,
     duplicate, drop, swap, replay of any message that ever was in flight —, calls of `Do` and one-way `WriteMessage`
     by A's application, sleeps and cache sweeps: every message either layer hands to its application is an arrival
@@ -459,6 +474,8 @@ open CoapVerif.Props.C04
 #print axioms token_reuse_restarts
 #print axioms expiry_finite
 #print axioms guard_held_across_handler
+#print axioms deadlines_are_finite
+#print axioms caches_own_their_messages
 #print axioms layer_per_connection
 #print axioms datagram_read_buffer_is_mtu
 #print axioms system_safe
